@@ -1,7 +1,10 @@
 package mv
 
 import (
+	"bytes"
 	"fmt"
+	"os"
+	"path/filepath"
 
 	"github.com/couchbase/moss"
 )
@@ -146,6 +149,12 @@ func RunC12(t TB, p *Program) *c12State {
 	c := &c12State{Env: e}
 	defer e.Cleanup()
 	e.OnRound = c.onRound
+	if !p.Cfg.NoSync {
+		// record the file operations: "durable" is decided from the trace
+		e.Dir = newCaseDir()
+		e.FS = NewFS(e.Dir)
+		e.FS.Record(true)
+	}
 	e.Open()
 	c.persists, c.compTot, c.compPart = c.readCounters()
 	for i, op := range p.Ops {
@@ -218,6 +227,9 @@ func RunC12(t TB, p *Program) *c12State {
 			// ... and durable: a copy of the directory reopens to it
 			h := &Hist{Env: e}
 			h.reopenCopy(when, want, "the reverted content is not what a reopen yields")
+			if !p.Cfg.NoSync {
+				c.checkDurable(when, want)
+			}
 			c.older = append(c.older, c.exposed[:len(c.exposed)-1-depth]...)
 			c.older = append(c.older, c.exposed[len(c.exposed)-1-depth:]...)
 			c.exposed = []*Node{want.Clone()}
@@ -240,4 +252,88 @@ func RunC12(t TB, p *Program) *c12State {
 	h := &Hist{Env: e}
 	h.reopenCopy("final", e.Model, "content after close and reopen differs")
 	return c
+}
+
+// checkDurable decides "durable" for a SnapshotRevert that has returned: the
+// directory as a power loss right now would leave it - every file cut back
+// to what its last completed Sync covered (un-synced writes lost, with the
+// natural and with the already extended length) - must reopen to want.
+func (c *c12State) checkDurable(when string, want *Node) {
+	e := c.Env
+	files := map[string]*fileSim{}
+	for _, op := range e.FS.Trace() {
+		switch op.Kind {
+		case "open":
+			if op.Flags&os.O_CREATE != 0 && !op.Err {
+				if _, ok := files[op.Name]; !ok {
+					files[op.Name] = &fileSim{exists: true}
+				}
+			}
+		case "write":
+			if f := files[op.Name]; f != nil && len(op.Data) > 0 && !op.Err {
+				f.current = applyAt(f.current, op.Off, op.Data)
+			}
+		case "syncdone":
+			if f := files[op.Name]; f != nil {
+				f.durable = append([]byte{}, f.current...)
+			}
+		case "unlink":
+			if f := files[op.Name]; f != nil {
+				f.exists = false
+			}
+		}
+	}
+	unsynced := false
+	for variant := 0; variant < 2; variant++ {
+		im := image{}
+		for n, f := range files {
+			if !f.exists {
+				continue
+			}
+			b := append([]byte{}, f.durable...)
+			if len(f.current) != len(f.durable) || !bytes.Equal(f.current, f.durable) {
+				unsynced = true
+			}
+			if variant == 1 && len(f.current) > len(b) {
+				b = append(b, make([]byte, len(f.current)-len(b))...)
+			}
+			im[n] = b
+		}
+		if variant == 1 && !unsynced {
+			break
+		}
+		dir := e.Dir + ".durable"
+		os.RemoveAll(dir)
+		os.MkdirAll(dir, 0700)
+		for n, b := range im {
+			if err := os.WriteFile(filepath.Join(dir, n), b, 0600); err != nil {
+				os.RemoveAll(dir)
+				e.Failf("checkDurable: %v", err)
+			}
+		}
+		so := moss.StoreOptions{}
+		if e.Cfg.MergeOp {
+			so.CollectionOptions.MergeOperator = e.mergeOp
+		}
+		s, coll, err := moss.OpenStoreCollection(dir, so, moss.StorePersistOptions{})
+		if err != nil {
+			os.RemoveAll(dir)
+			e.Failf("%s: SnapshotRevert returned, but the directory as its completed Syncs cover it (un-synced writes dropped) does not reopen: %v [%s]", when, err, imageListing(im))
+		}
+		d := ""
+		snap, err := coll.Snapshot()
+		if err != nil {
+			d = "Snapshot: " + err.Error()
+		} else {
+			d = CompareSnapshot(snap, want, ReadOpts{}, "durable-image")
+			snap.Close()
+		}
+		coll.Close()
+		s.Close()
+		os.RemoveAll(dir)
+		if d != "" {
+			e.Failf("%s: SnapshotRevert returned, but the reverted content is not durable: the directory as its completed Syncs cover it (un-synced writes dropped%s) reopens to different content: %s", when, map[int]string{0: "", 1: ", file already at its new length"}[variant], d)
+		}
+		c.Label("revert-durable-image")
+	}
 }
